@@ -294,6 +294,9 @@ sys.exit(0)
 
 
 def replay(ob):
+    if "outputs_are_pairwise_distinct_values" in ob["name"]:
+        from props import C01
+        return C01.DUP_OUTPUTS
     if "functions_use_the_default_domain_at_the_version" in ob["name"]:
         return MIXED_OPSETS
     if "to_model_proto.default_domain_version" in ob["name"] or "main_graph_imports_keep_their_versions" in ob["name"]:
